@@ -50,9 +50,11 @@ def run(prop, tier, profile, focus, runs_q, runs_t, steps):
         jobs = 6
         per = [(i, max(1, runs // jobs + (1 if i < runs % jobs else 0))) for i in range(min(jobs, runs))]
 
+        profiles = profile if isinstance(profile, list) else [profile]
+
         def one(a):
             i, n = a
-            return serverdrv.record(binary, os.path.join(work, "w%d" % i), profile, n, steps, vlib.seed() * 31 + i)
+            return serverdrv.record(binary, os.path.join(work, "w%d" % i), profiles[i % len(profiles)], n, steps, vlib.seed() * 31 + i)
         events = []
         summ = {"runs": 0, "requests": 0, "requests_ok": 0, "ops": {}}
         with cf.ThreadPoolExecutor(max_workers=jobs) as ex:
